@@ -5,6 +5,9 @@ Ops == {[k |-> "W", name |-> "x"], [k |-> "R", name |-> "x"], [k |-> "H", name |
         [k |-> "WI", name |-> "A"], [k |-> "RI", name |-> "A"]}
 OpsL == {[k |-> "W", name |-> "x"], [k |-> "R", name |-> "x"], [k |-> "H", name |-> ""],
          [k |-> "R", name |-> "y"], [k |-> "W", name |-> "y"]}
+OpsP == {[k |-> "WP", name |-> "gp"], [k |-> "RP", name |-> "gp"], [k |-> "W", name |-> "x"], [k |-> "R", name |-> "x"]}
+Progs3P == UNION {[1..i -> OpsP] : i \in 0..3}
+Progs2P == UNION {[1..i -> OpsP] : i \in 0..2}
 Progs2 == UNION {[1..i -> Ops] : i \in 0..2}
 Progs3L == UNION {[1..i -> OpsL] : i \in 0..3}
 Progs2L == UNION {[1..i -> OpsL] : i \in 0..2}
